@@ -7,6 +7,8 @@ base = json.load(open("/root/.vp/BASELINE.json"))
 env = dict(os.environ, GOFLAGS="-mod=mod", GOPROXY="off", GOSUMDB="off", GOTOOLCHAIN="local")
 p = subprocess.run(["go", "test", "-json", "-vet=off", "-count=1", "-timeout", "25m", "./..."], cwd=repo, env=env,
                    capture_output=True, text=True)
+if "--json" in sys.argv:
+    sys.stdout.write(p.stdout)       # the raw `go test -json` stream, for whoever wants to parse it
 res = {}
 for line in p.stdout.splitlines():
     try:
